@@ -282,12 +282,30 @@ class WExpr:
         return " + ".join(str(x) for x in self.syms) or "0.0"
 
 
+class WNum(float):
+    """a configured number of the witness model (a process-noise entry).  It is a float for every computation; as *text* it is only valid once the
+    generator's block printer (cpp.BasicBlock -> sympy's C printer; here WBlock) has printed it.  Interpolating it into the generated code any
+    other way (`str()`, an f-string, a node printed as it stands) yields a token that is not C++, so the witness stops compiling -- the static
+    counterpart of `Rational(1, 4)` coming out as the integer division `1/4`."""
+
+    def __str__(self):
+        return f"NUMBER_NOT_PRINTED_BY_THE_C_PRINTER({float.__repr__(self)})"
+    __repr__ = __str__
+
+    def __format__(self, spec):
+        return str(self)
+
+
+def _cprint(e) -> str:
+    return float.__repr__(e) if isinstance(e, WNum) else str(e)
+
+
 class WBlock:
     """stand-in for cpp.BasicBlock (its CSE / simplify / ccode pipeline is the temporaries protocol's business, fv.tmprules): one statement per
     (target, expression), the expression printed as it stands after the generator's substitution"""
 
     def __init__(self, statements=(), indent=0, config=None):
-        self.statements = [(str(t), str(e)) for t, e in list(statements)]
+        self.statements = [(str(t), _cprint(e)) for t, e in list(statements)]
 
     def __len__(self):
         return len(self.statements)
@@ -384,7 +402,7 @@ def real_generator(v: Valuation, w: "Witness"):
             raise core.AnalysisError("anchor missing: cpp.ExtendedKalmanFilter")
         sensor_models = {n_: {f"{n_}_r{i}": WExpr(m._st + m._cal) for i in range(sz)} for n_, sz in v.sensors}
         sensor_noises = {n_: {f"{n_}_r{i}": 1.0 for i in range(sz)} for n_, sz in v.sensors}
-        gen = minieval.ClassRef(ev, "cpp", node)(state_model=m, process_noise={c: 1.0 for c in m._ct}, sensor_models=sensor_models,
+        gen = minieval.ClassRef(ev, "cpp", node)(state_model=m, process_noise={c: WNum(1.0) for c in m._ct}, sensor_models=sensor_models,
                                                   sensor_noises=sensor_noises, namespace="gen", header_include="witness.h", config=config,
                                                   calibration_map=cal_map)
     else:
